@@ -148,8 +148,16 @@ func (m *Machine) external(st *State, fr *Frame, instr ssa.Instruction, fn *ssa.
 	case "strings.Contains":
 		return m.stringsContains(st, args)
 	case "reflect.TypeOf", "reflect.ValueOf", "(reflect.Value).Elem", "(reflect.Value).FieldByName", "(reflect.Value).IsValid", "(reflect.Value).Interface":
-		use("opaque reflection (results unconstrained)")
-		return m.freshRets(st, sig, "reflect")
+		use("opaque reflection (results unconstrained; TypeOf of a non-nil value is a non-nil Type)")
+		rets := m.freshRets(st, sig, "reflect")
+		if name == "reflect.TypeOf" {
+			if a, ok := args[0].(*Iface); ok {
+				if r, ok := rets[0].(*Iface); ok {
+					st.assume(c.Implies(c.Neq(a.Tag, c.Int(0)), c.Neq(r.Tag, c.Int(0))))
+				}
+			}
+		}
+		return rets
 	}
 	m.problem("no trusted model for external function %s (called from %s)", name, relName(fr.fn))
 	st.dead = true
